@@ -28,12 +28,41 @@ func init() {
 
 // data set name -> path of its meta file ("PERMUTED:<path>" = the row-permuted variant in a temp directory)
 var txPermutedPath string
+var txGenerated = map[string]string{}
 
 func txPath(ds string) string {
 	if ds == "PERMUTED" {
 		return txPermutedPath
 	}
+	if p, ok := txGenerated[ds]; ok {
+		return p
+	}
 	return catchTestdata(ds)
+}
+
+// txAddGenerated creates n random data sets that the real loader accepts and returns their names
+func txAddGenerated(p *prng, n int, stats map[string]int) (names []string, cleanup func()) {
+	var cleanups []func()
+	for tries := 0; len(names) < n && tries < 20*n; tries++ {
+		path, cl, desc := catchGeneratedDataset(p)
+		if _, ok := catchTryOpen(path); !ok {
+			stats["generated_datasets_rejected_by_loader"]++
+			cl()
+			continue
+		}
+		name := "GEN" + strconv.Itoa(len(names))
+		txGenerated[name] = path
+		names = append(names, name)
+		cleanups = append(cleanups, cl)
+		stats["generated_datasets"]++
+		stats["generated_planning_units"] += desc["planning_units"].(int)
+		stats["generated_action_rows"] += desc["action_rows"].(int)
+	}
+	return names, func() {
+		for _, c := range cleanups {
+			c()
+		}
+	}
 }
 
 func txBits(p *prng, n int, density float64) []int {
@@ -158,6 +187,13 @@ func runTx(prop string, args []string) {
 	txPermutedPath = permPath
 	datasets := []string{"ValidModel.csv", "TestingModel.csv", "PERMUTED"}
 	stats := map[string]int{}
+	nGen := 3
+	if tier == "thorough" {
+		nGen = 20
+	}
+	genNames, genCleanup := txAddGenerated(p, nGen, stats)
+	defer genCleanup()
+	datasets = append(datasets, genNames...)
 	fails := 0
 	states := 12
 	if tier == "thorough" {
